@@ -304,6 +304,8 @@ def r18_4(ctx):
             for a, v in p.conds:
                 if a[0] == "call" and a[1].endswith("is_null"):
                     null = bool(v)
+                elif a[0] == "disc" and a[1][0] == "call" and a[1][1].rsplit("::", 1)[1] in ("as_mut", "as_ref") and "ptr" in a[1][1] and v in ("Some", "None"):
+                    null = v == "None"   # `match p.as_mut() { None => .., Some(r) => .. }`
             consumed = [e for e in p.events if e[0] == "call" and e[1] == BUFFER + "::into_vec"]
             dup = [e for e in p.events if e[0] == "call" and e[1] == BUFFER + "::duplicate"]
             rows[null] = (len(consumed), len(dup))
@@ -434,6 +436,7 @@ def r18_8(ctx):
                 continue
             r.analysed(f)
             bad = set()
+            f = F.loop_form(f)  # `opt.map_or(null(), |x| Box::into_raw(..))` as the match it abbreviates
             for p in Sym(f, copies=False).paths():
                 if p.end[0] != "ret":
                     continue
